@@ -215,9 +215,17 @@ func c14Run(c *Ctx) {
 	var noisy []string
 	var meta []iniLine
 	crlf := r.Intn(3)
+	curHeader := ""
 	for _, l := range base {
 		for r.Chance(1, 3) {
 			noisy = append(noisy, c14Noise(r))
+			meta = append(meta, iniLine{Kind: "noise"})
+		}
+		if l.Kind == "header" {
+			curHeader = l.Text
+		} else if curHeader != "" && r.Chance(1, 8) {
+			// re-opening the current section changes nothing
+			noisy = append(noisy, curHeader)
 			meta = append(meta, iniLine{Kind: "noise"})
 		}
 		noisy = append(noisy, c14Decorate(r, l))
@@ -345,7 +353,24 @@ func c14Fault(c *Ctx, d *Decl, noisy []string, meta []iniLine, crlf int) {
 	case "empty-section":
 		line = r.Pick([]string{"[]", "[ ]", "[\t]"})
 	case "bad-quote":
-		line = "Whatever = " + r.Pick([]string{"\"abc", "\"", "\"a\\xZZ\"", "\"a\"b\"", "\"abc\" trailing"})
+		bad := r.Pick([]string{"\"abc", "\"", "\"a\\xZZ\"", "\"a\"b\"", "\"abc\" trailing", "\"\"\"", "\"x\" ; \"y\""})
+		line = "Whatever = " + bad
+		// preferably on a known string option of the section in effect, so that the quoting is the only fault
+		var cands []int
+		for i, m := range meta {
+			if m.Kind == "entry" && m.Opt.T.K == KString && m.Opt.T.W == WScalar && len(m.Opt.Choices) == 0 {
+				cands = append(cands, i)
+			}
+		}
+		if len(cands) > 0 {
+			i := cands[r.Intn(len(cands))]
+			p = i + 1
+			name := meta[i].Opt.Field
+			if meta[i].Opt.IniName != "" {
+				name = meta[i].Opt.IniName
+			}
+			line = name + " = " + bad
+		}
 	case "unknown-option":
 		line = fmt.Sprintf("zz_no_such_option_%d = 1", r.Intn(100))
 	case "empty-key":
